@@ -95,7 +95,8 @@ def gen(rng, tier):
         f['pos'] = rng.randrange(0, len(request) + 1)
         f['file'] = rng.randrange(nfiles)         # -1 would mean "in no file"
         f['everywhere'] = rng.random() < 0.3
-    return {'cols': cols, 'files': files, 'request': request, 'fault': f, 'knobs': C.gen_knobs(rng)}
+    return {'cols': cols, 'files': files, 'request': request, 'fault': f, 'knobs': C.gen_knobs(rng),
+            'prior_call': rng.random() < 0.2 and not any(r > 100000 for fl in files for r in fl['rows'])}
 
 
 def _array(col, rows, seed):
@@ -140,6 +141,22 @@ def run(case):
     fault = case['fault']
     with C.scratch() as root:
         paths, truth = [], {}
+        if case.get('prior_call'):
+            # history: the same paths held other contents earlier in this process and were piped once already
+            # (a pipeline re-writing its scratch files); what is emitted must be what the files hold *now*
+            prior = []
+            for fi, f in enumerate(case['files']):
+                data = {col['name']: _array(col, f['rows'][ci] + 1 + fi, f['seed'] + 977 + ci) for ci, col in enumerate(case['cols'])}
+                p = os.path.join(root, f['name'])
+                asdf.AsdfFile({'data': data, 'header': {'BoxSize': 1.0}}).write_to(p)
+                prior.append(p)
+            try:
+                with C.environment(knobs):
+                    pipe_asdf.unpack_to_pipe(prior, list(case['request']), pipe=Sink(), verbose=False)
+            except Exception as e:
+                violation(out, 'raises:' + type(e).__name__, 'unpack_to_pipe:prior-call', repr(e)[:300])
+                return out
+            bump(out['faults'], 'same-paths-piped-before-with-other-contents')
         for fi, f in enumerate(case['files']):
             data = {}
             for ci, col in enumerate(case['cols']):
@@ -219,6 +236,8 @@ def run(case):
 
 def shrink(case):
     c = copy.deepcopy(case)
+    if case.get('prior_call'):
+        yield dict(c, prior_call=False)
     if len(case['files']) > 1:
         for i in range(len(case['files'])):
             f2 = dict(case['fault'])
